@@ -13,11 +13,13 @@ CONFIG = {
         "fixture materialisation: board attribute/level words are written into the shared board cache, the moderator cache slots directly, the friend list through the board's visable file + cache.HbflReload, the named-moderator fact through the header's BM string (as the repository's own tests do)",
         "content-reading callees are a fixed list (cache.GetBTotalWithRetry, GetBottomTotal, setBDir, path.SetBFile/SetBNFile, cmsys.GetRecords, readContent, findArticleStartIdx); a new content read under another name before the permission test makes the model answer `unmodelled` (correspondence breaks), it is not silently accepted",
     ],
-    "modelled": ["ptt.boardPermStat", "ptt.boardPermStatNormally", "ptt.IsBMCache", "ptt.groupOp", "ptt.newBoardStat (with its write to the shared cache)",
+    "modelled": ["ptt.is_uBM (byte level: types.CstrToBytes, Cstrstr/bytes.Index, Isalnum)", "ptt.boardPermStat", "ptt.boardPermStatNormally", "ptt.IsBMCache", "ptt.groupOp", "ptt.newBoardStat (with its write to the shared cache)",
                  "ptt.parseBoardSummary", "ptt.LoadBoardSummary", "ptt.LoadBoardDetail", "bbs.NewBoardSummaryFromRaw (nil title panic)",
                  "interpreted from regenerated statement lists: IsBoardValidUser, LoadGeneralArticles, LoadBottomArticles, FindArticleStartIdx, ReadPost, ReadPostTemplate, loadGeneralBoardStat, loadAutoCompleteBoardStat, loadBoardStat, loadHotBoardStat, loadClassBoardStat"],
     "assumptions": [
-        "the relation facts (uid in the moderator cache, friend listed, user id named in the moderator string) are inputs: cache.IsHiddenBoardFriend / is_uBM / buildBMCache themselves are not modelled (friend-list expiry and reload are exercised by the fixture only)",
+        "the relation facts `uid in the moderator cache` and `friend listed` are inputs: cache.IsHiddenBoardFriend / buildBMCache themselves are not modelled (friend-list expiry and reload are exercised by the fixture only); `named in the moderator string` is an input in the decision table and is computed by the modelled is_uBM in the nlist ops",
+        "is_uBM is NOT equal to `one of the '/'-separated names` on all byte strings (theorems is_uBM_misses_named, is_uBM_junk_separator): it looks at the first occurrence only (a named moderator listed after a longer look-alike is not recognised: denial direction, recorded as a NOTE) and takes any non-alphanumeric byte as separator (only for moderator strings that are not ids and '/': recorded as a NOTE); the leak direction is proved and judged for alphanumeric ids and well-formed moderator strings",
+        "the bbs name check is exercised with Shm.BBusyState raised by the harness for the duration of the call (xreadb); a real concurrent reload is not driven",
         "O2: package ptt's entry points take the board id for the permission test and the board NAME for the path and never compare them (recorded as a NOTE on every run); the bbs boundary refuses an inconsistent pair (BBoardID.ToRaw, fact regenerated as Gen.bboardIDChecksName, key board:name-mismatch)",
         "ptt.LoadClassBoards is driven on the class root of the fixture (children: two ordinary boards and the varied group board); its sibling walk itself is not modelled, only the per-child stat function",
         "keyword / title filters of the name listings are off in the driven calls (modelled as the fact kwMiss = false)",
